@@ -86,13 +86,20 @@ def cases(spec, ctx):
     # (sequence-less locations: nothing in the property bounds the magnitude of a coordinate)
     srng = __import__("random").Random(f"C01-scale:{ctx.seed}:{i}")
     for k in range(sc["NR"] // (8 * n) + 1):
-        g = srng.choice([120, 400, 2000])
+        g = srng.choice([400, 2000, 6000])
         ov = srng.random() < 0.3
-        nb = srng.randint(9, 30)
+        nb = srng.choice([srng.randint(9, 30), srng.randint(17, 40), srng.randint(33, 70), srng.randint(64, 150)])
         blocks = ()
         while len(blocks) < 9:
             blocks = G.rand_layout(srng, g, nb, overlap=ov)
         qblocks = G.rand_layout(srng, g, srng.choice([1, 4, 12]), overlap=False)
+        if k % 2 and not ov:
+            # roles swapped: a window (1..2 blocks) whose edges fall inside blocks of a many-block QUERY (a transcript lifted onto a chunk)
+            inner = [b for b in blocks if b[1] - b[0] >= 2]
+            if len(inner) >= 2:
+                b1, b2 = sorted(srng.sample(inner, 2))
+                win = ((srng.randint(b1[0] + 1, b1[1] - 1), srng.randint(b2[0] + 1, b2[1] - 1)),)
+                blocks, qblocks = win, blocks
         yield {"kind": "random", "blocks": blocks, "strand": srng.choice("+-"), "genome": g, "parent": srng.choice(modes),
                "q": qblocks, "qstrand": srng.choice("+-."), "seed": srng.randrange(1 << 30), "scale": "many-blocks"}
     for k in range(sc["NR"] // (8 * n) + 1):
